@@ -239,3 +239,94 @@ Proof.
   rewrite Q. eapply Permutation_trans; [apply Permutation_flat_map; exact P|].
   rewrite pick_seq. reflexivity.
 Qed.
+
+(* the rows an aggregate of a GROUP BY query is given are the rows at the positions of its bucket *)
+Lemma group_rows_by_positions strict keys rows :
+  group_rows strict keys rows = (do idx <- bucket_idx strict keys rows; Ok (map (pick rows) idx)).
+Proof.
+  unfold group_rows, bucket_idx.
+  destruct (mapM (fun r => do vs <- mapM (eval r) keys; Ok (row_key strict vs)) rows); reflexivity.
+Qed.
+
+(* ---- the SELECT pipeline without grouping, ordering and limits --------------------------------------------- *)
+Lemma existsb_agg_sexpr es : existsb item_is_agg (map SExpr es) = false.
+Proof. induction es as [|e es IH]; [reflexivity|exact IH]. Qed.
+
+Lemma mapM_eval_items strict r es :
+  mapM (eval_item strict [r]) (map SExpr es) = mapM (eval r) es.
+Proof.
+  induction es as [|e es IH]; [reflexivity|]. cbn [map mapM eval_item hd]. rewrite IH. reflexivity.
+Qed.
+
+Lemma mapM_ext {A B} (f g : A -> res B) l : (forall x, f x = g x) -> mapM f l = mapM g l.
+Proof. intros H. induction l as [|x l IH]; [reflexivity|]. cbn [mapM]. rewrite H, IH. reflexivity. Qed.
+
+Lemma mapM_pair_snd {A B} (f : A -> res B) l :
+  (do outs <- mapM (fun r => do o <- f r; Ok (r, o)) l; Ok (map snd outs)) = mapM f l.
+Proof.
+  induction l as [|x l IH]; [reflexivity|]. cbn [mapM].
+  destruct (f x) as [o|e]; cbn [bind]; [|reflexivity].
+  destruct (mapM (fun r => do o <- f r; Ok (r, o)) l) as [outs|e] eqn:E; cbn [bind] in IH |- *.
+  - destruct (mapM f l) as [ys|e']; cbn [bind]; [|discriminate]. inversion IH. reflexivity.
+  - destruct (mapM f l) as [ys|e']; cbn [bind]; [discriminate|]. inversion IH. reflexivity.
+Qed.
+
+(* SELECT e1, .., en FROM src [WHERE c]: the rows of the source, filtered by the condition, each replaced by the
+   values of the select list - in the order of the source, nothing added, nothing dropped *)
+Theorem select_pipeline strict src wh es :
+  eval_query strict (Q (BSelect src wh None None (map SExpr es) false) [] None None) =
+  (do rows <- eval_source strict src;
+   do kept <- (match wh with None => Ok rows | Some c => filter_rows c rows end);
+   mapM (fun r => mapM (eval r) es) kept).
+Proof.
+  change (eval_query strict (Q (BSelect src wh None None (map SExpr es) false) [] None None))
+    with (do rows <- eval_body strict (BSelect src wh None None (map SExpr es) false); apply_order_limit strict [] None None rows).
+  change (eval_body strict (BSelect src wh None None (map SExpr es) false))
+    with (do rows <- eval_source strict src;
+          do rows1 <- (match wh with None => Ok rows | Some c => filter_rows c rows end);
+          do outs <- (if existsb item_is_agg (map SExpr es)
+                      then do o <- mapM (eval_item strict rows1) (map SExpr es); Ok [(hd [] rows1, o)]
+                      else mapM (fun r => do o <- mapM (eval_item strict [r]) (map SExpr es); Ok (r, o)) rows1);
+          Ok outs).
+  rewrite existsb_agg_sexpr.
+  destruct (eval_source strict src) as [rows|e]; cbn [bind]; [|reflexivity].
+  destruct (match wh with None => Ok rows | Some c => filter_rows c rows end) as [kept|e]; cbn [bind]; [|reflexivity].
+  rewrite (mapM_ext _ (fun r => do o <- mapM (eval r) es; Ok (r, o))) by (intros r; rewrite mapM_eval_items; reflexivity).
+  rewrite <- (mapM_pair_snd (fun r => mapM (eval r) es) kept).
+  destruct (mapM (fun r => do o <- mapM (eval r) es; Ok (r, o)) kept) as [outs|e]; cbn [bind]; [|reflexivity].
+  unfold apply_order_limit. cbn. unfold offset_rows. cbn. reflexivity.
+Qed.
+
+(* SELECT items FROM src [WHERE c] GROUP BY keys: one row per bucket, in the order of the buckets, holding the
+   items evaluated over the rows of that bucket *)
+Theorem group_by_pipeline strict src wh keys items :
+  eval_query strict (Q (BSelect src wh (Some keys) None items false) [] None None) =
+  (do rows <- eval_source strict src;
+   do kept <- (match wh with None => Ok rows | Some c => filter_rows c rows end);
+   do gs <- group_rows strict keys kept;
+   mapM (fun g => mapM (eval_item strict g) items) gs).
+Proof.
+  change (eval_query strict (Q (BSelect src wh (Some keys) None items false) [] None None))
+    with (do rows <- eval_body strict (BSelect src wh (Some keys) None items false); apply_order_limit strict [] None None rows).
+  change (eval_body strict (BSelect src wh (Some keys) None items false))
+    with (do rows <- eval_source strict src;
+          do rows1 <- (match wh with None => Ok rows | Some c => filter_rows c rows end);
+          do outs <- (do gs <- group_rows strict keys rows1;
+                      do gs1 <- Ok gs;
+                      mapM (fun g => do o <- mapM (eval_item strict g) items; Ok (hd [] g, o)) gs1);
+          Ok outs).
+  destruct (eval_source strict src) as [rows|e]; cbn [bind]; [|reflexivity].
+  destruct (match wh with None => Ok rows | Some c => filter_rows c rows end) as [kept|e]; cbn [bind]; [|reflexivity].
+  destruct (group_rows strict keys kept) as [gs|e]; cbn [bind]; [|reflexivity].
+  assert (E : forall (l : list (list row)),
+     (do outs <- mapM (fun g => do o <- mapM (eval_item strict g) items; Ok (hd [] g, o)) l; Ok (map snd outs))
+     = mapM (fun g => mapM (eval_item strict g) items) l).
+  { induction l as [|g l IH]; [reflexivity|]. cbn [mapM].
+    destruct (mapM (eval_item strict g) items) as [o|e]; cbn [bind]; [|reflexivity].
+    destruct (mapM (fun g0 => do o0 <- mapM (eval_item strict g0) items; Ok (hd [] g0, o0)) l) as [outs|e]; cbn [bind] in IH |- *.
+    - destruct (mapM (fun g0 => mapM (eval_item strict g0) items) l); cbn [bind]; [|discriminate]. inversion IH. reflexivity.
+    - destruct (mapM (fun g0 => mapM (eval_item strict g0) items) l); cbn [bind]; [discriminate|]. inversion IH. reflexivity. }
+  rewrite <- E.
+  destruct (mapM (fun g => do o <- mapM (eval_item strict g) items; Ok (hd [] g, o)) gs) as [outs|e]; cbn [bind]; [|reflexivity].
+  unfold apply_order_limit. cbn. unfold offset_rows. cbn. reflexivity.
+Qed.
